@@ -68,6 +68,9 @@ def observe(cli, types, external=(), config=None, files=None):
                 entry["shapes"] = shapes
                 entry["env"] = env
             entry["pkeys"] = params_keys(out, mode)
+            # the positions that carry a plain TypeScript type in BOTH modes (channel member of the parameter object, return type,
+            # event payloads): the two modes print the same type there
+            entry["ts_sites"] = {(i_, site_): got_ for (i_, site_, got_, _n) in c05.observe(out, types, mode) if site_ in ("channel", "return", "event", "event-let")}
             res[mode] = entry
         finally:
             g.cleanup()
@@ -155,6 +158,13 @@ def run_batch(a):
             out["compared"] += 1
             if not same_structure(t, n, z):
                 out["diff"].append((i, site, n, z))
+    out["ts_sites_compared"] = 0
+    out["ts_sites_diff"] = []
+    for key, n in r["none"]["ts_sites"].items():
+        z = r["zod"]["ts_sites"].get(key)
+        out["ts_sites_compared"] += 1
+        if n != z:
+            out["ts_sites_diff"].append((key[0], key[1], n, z))
     # the parameter object as a whole: same keys in both modes (regular parameters and channels alike)
     out["pkeys_diff"] = []
     out["pkeys_compared"] = 0
@@ -326,6 +336,12 @@ def run(tier):
             idx_ = int("".join(ch for ch in n_ if ch.isdigit()) or job[1][0][0])
             v.violation("C10 parameter-object-keys-differ only-%s" % ("plain" if kz is not None and set(kn) - set(kz) else "zod" if kz is not None else "zod-unreadable"),
                         "%s: plain mode declares keys %s, the Zod-mode type has %s" % (n_, kn, kz), wit(idx_ if idx_ in tmap else job[1][0][0]))
+        v.count("plain_type_positions_compared_between_modes", r.get("ts_sites_compared", 0))
+        for (i, site, n, z) in r.get("ts_sites_diff", [])[:6]:
+            if i not in tmap:
+                continue
+            v.violation("C10 plain-type-position-differs-between-modes site=%s %s" % (site, rg.skeleton(tmap[i])),
+                        "%s of Rust type `%s`: plain mode prints %s, Zod mode prints %s" % (site, rg.rust(tmap[i]), sh.show(n) if n else "<nothing usable>", sh.show(z) if z else "<nothing usable>"), wit(i))
         for (i, site, n, z) in r["diff"]:
             t = tmap[i]
             if is_mapped:
